@@ -304,6 +304,12 @@ FixItem(its, it) ==
   ELSE it
 FixModule(its) == [i \in 1..Len(its) |-> FixItem(its, its[i])]
 
+(* ---- the temporary-name counter of a module: the largest N of an item named ".lc<N>" (what the reader has to restore) *)
+RECURSIVE DecVal(_, _, _)
+DecVal(b, i, acc) == IF i > Len(b) THEN acc ELSE IF b[i] \in 48..57 /\ acc < 100000 THEN DecVal(b, i + 1, (10 * acc) + (b[i] - 48)) ELSE -1
+TempNum(b) == IF Len(b) >= 4 /\ SubSeq(b, 1, 3) = <<46, 108, 99>> /\ DecVal(b, 4, 0) >= 0 THEN DecVal(b, 4, 0) ELSE 0
+TmpOf(its) == LET S == {TempNum(its[i].name) : i \in 1..Len(its)} \cup {0} IN CHOOSE m \in S : \A x \in S : x <= m
+
 (* ---- the machine *)
 (* tokens / elements / strings handled per step: the evaluator's cost grows with the recursion depth *)
 LexN == 4   ElN == 48   StrN == 32
@@ -376,7 +382,7 @@ Keyword(kw, p) ==          \* p: after the keyword token
   ELSE IF modname = <<>> THEN Fatal("item outside module")
   ELSE IF kw = KW_endmodule THEN
      (IF fn.open THEN Fatal("endmodule inside func")
-      ELSE /\ mods' = Append(mods, [name |-> modname[1], items |-> FixModule(items)]) /\ modname' = <<>> /\ items' = <<>> /\ pos' = p
+      ELSE /\ mods' = Append(mods, [name |-> modname[1], items |-> FixModule(items), tmp |-> TmpOf(items)]) /\ modname' = <<>> /\ items' = <<>> /\ pos' = p
            /\ UNCHANGED <<cidx, enc, st, cnt, strs, lex, fn, dat, errs>>)
   ELSE IF kw = KW_endfunc THEN
      (IF ~fn.open THEN Fatal("endfunc without func")
